@@ -1,4 +1,4 @@
-import BM.Props.C03
+import BM.Props.C03c
 import BM.Props.SrcPin.C03
 /- Top module of property C03: its theorems (BM.Props.C03) and the statement of which units of /repo's
    source its model and proofs were written against (BM/Props/SrcPin/C03.lean, re-checked against the
